@@ -62,7 +62,51 @@ func c17Value(host, raw string) string {
 	return raw
 }
 
+// c17Include: the file name of an INCLUDE is a parameter like any other. The
+// name is f<value>.jst; it is read back by finding the included file's type
+// in the catalog. A backslash in a file name is refused by the INCLUDE rules
+// (C08), a slash would mean a directory: both are left to C08.
+func c17Include(c c17Case, info *vlib.Info) *vlib.Failure {
+	if strings.ContainsAny(c.Value, "/\\") {
+		info.Class("include-name-left-to-C08")
+		return nil
+	}
+	name := "f" + c.Value + ".jst"
+	param := name
+	if c.Quoted {
+		param = c17Quote(name)
+		info.Class("quoted")
+	} else {
+		if !bareLegal(name) {
+			info.Class("not-bare-legal")
+			return nil
+		}
+		info.Class("bare")
+	}
+	info.Class("host:Include")
+	info.NonTrivial = strings.ContainsAny(c.Value, "\"#*@[ \t")
+	p := vlib.Project{Root: "root.jst", Files: map[string]string{"root.jst": "JSIGHT 0.3\nINCLUDE " + param + c.Sep + "\n", name: "TYPE @inc\n{}\n"}}
+	res := vlib.Run(p)
+	if res.Panic != "" {
+		return vlib.Failf("panic", "INCLUDE %s panics: %s", param, res.Panic)
+	}
+	if !res.Accepted {
+		return vlib.Failf("value-rejected", "INCLUDE %s of the existing file %q: rejected (%s)", param, name, res.Err.Msg)
+	}
+	cat, err := vlib.ParseCatalog(res.JSON)
+	if err != nil {
+		return vlib.Failf("bad-json", "%v", err)
+	}
+	if types := cat.Obj("userTypes"); types == nil || !types.Has("@inc") {
+		return vlib.Failf("value-differs", "INCLUDE %s is accepted but the file %q was not included", param, name)
+	}
+	return nil
+}
+
 func c17Check(c c17Case, info *vlib.Info) *vlib.Failure {
+	if c.Host == "Include" {
+		return c17Include(c, info)
+	}
 	value := c17Value(c.Host, c.Value)
 	if value == "" {
 		info.Class("empty-value")
@@ -175,10 +219,11 @@ func c17NegCheck(c c17Neg, info *vlib.Info) *vlib.Failure {
 
 func TestC17(t *testing.T) {
 	h := vlib.New(t, "C17", "exploration",
-		"single-line values over {a, \\, \", space, #, /, *, tab, @, [, ], e-acute} written quoted (escaping \" and \\) in seven hosts (Title, Version, BaseUrl, Query example, method path, URL path, JSON-RPC method name) exhaustively to the tier's length, bare where the value is legal bare, the unescape function directly, random valid UTF-8 to 60 runes, and negative cases (unterminated quote, backslash before every other byte); non-trivial = the value holds an escape or one of # / * @ [ space tab; distinct by (host, value, spelling)",
+		"single-line values over {a, \\, \", space, #, /, *, tab, @, [, ], e-acute} written quoted (escaping \" and \\) in eight hosts (Title, Version, BaseUrl, Query example, method path, URL path, JSON-RPC method name, INCLUDE file name - read back by the included file's content; names with a slash or backslash are C08's) exhaustively to the tier's length, bare where the value is legal bare, the unescape function directly, random valid UTF-8 to 60 runes, and negative cases (unterminated quote, backslash before every other byte); non-trivial = the value holds an escape or one of # / * @ [ space tab; distinct by (host, value, spelling)",
 		"paths are generated without braces (path parameters have their own rules, C13)", "invalid UTF-8 belongs to C09")
-	h.Require("quoted", "bare", "neg:unterminated", "neg:escape", "host:Title", "host:Version", "host:BaseUrl", "host:Query", "host:Path", "host:URL", "host:Method")
-	hosts := []string{"Title", "Version", "BaseUrl", "Query", "Path", "URL", "Method"}
+	h.Require("quoted", "bare", "neg:unterminated", "neg:escape", "host:Title", "host:Version", "host:BaseUrl", "host:Query", "host:Path", "host:URL", "host:Method", "host:Include")
+	defer vlib.CleanupScratch()
+	hosts := []string{"Title", "Version", "BaseUrl", "Query", "Path", "URL", "Method", "Include"}
 	alpha := []string{"a", `\`, `"`, " ", "#", "/", "*", "\t", "@", "[", "]", "é"}
 
 	// the unescape function itself: quoted form of v must come back as v
